@@ -107,3 +107,839 @@ Example ex_ttl_units :
   ttl_nowrap (B "1w2d3h4m5s") 0 0 = true /\ string_to_ttl (B "1w2d3h4m5s") = Some 788645 /\
   string_to_ttl (B "1W2D3H4M5") = Some 788645.
 Proof. vm_compute. repeat split. Qed.
+
+(* ---------- the parser refines the denotation (token level) ---------- *)
+Lemma zloop_cons cf p st l r : t_err l = false ->
+  zloop cf p st 0 (l :: r) =
+  match zstep cf p st l r with ZGo st' p' k => zloop cf p' st' k r | ZRet x => x end.
+Proof. intro H. cbn [zloop]. now rewrite H. Qed.
+Lemma zloop_skip cf p st k l r : zloop cf p st (S k) (l :: r) = zloop cf p st k r.
+Proof. reflexivity. Qed.
+
+Definition defttl_of (st : dstate) : option ttlst :=
+  match s_dollar st with
+  | Some v => Some (mkTtl v true)
+  | None => match s_stated st with
+            | Some v => Some (mkTtl v false)
+            | None => match s_default st with Some v => Some (mkTtl v false) | None => None end
+            end
+  end.
+Definition pinv (p : pst) (st : dstate) : Prop :=
+  p_origin p = s_origin st /\ p_defttl p = defttl_of st /\
+  (forall o, s_owner st = Some o -> h_name (p_h p) = o).
+
+(* take a [realizes] hypothesis apart *)
+Ltac tok_facts :=
+  repeat match goal with
+         | H : realizes ?t ?k |- _ =>
+           let Hv := fresh "Hv" in let He := fresh "He" in let Hn := fresh "Hn" in
+           let Ht := fresh "Ht" in let Hc := fresh "Hc" in
+           destruct H as (Hv & He & Hn & Ht & Hc); cbn in Hv, Ht, Hc;
+           try specialize (Ht eq_refl); try specialize (Hc eq_refl)
+         end.
+
+(* one turn of the loop on a token whose kind is known *)
+Ltac zs :=
+  match goal with
+  | |- context [zloop ?cf ?p ?st 0 (?t :: ?r)] => rewrite (zloop_cons cf p st t r) by assumption
+  end;
+  unfold zstep, zerr, ttl_then, is_val;
+  repeat match goal with H : t_val ?t = _ |- context [t_val ?t] => rewrite H end;
+  repeat match goal with H : t_text ?t = _ |- context [t_text ?t] => rewrite H end;
+  repeat match goal with H : t_torc ?t = _ |- context [t_torc ?t] => rewrite H end;
+  cbn [tval_eqb tval_code N.eqb Pos.eqb negb orb andb].
+
+Definition wf_ttl_text (t : bytes) : Prop :=
+  ttl_nowrap t 0 0 = true /\ exists v, ttl_of_text t = Some v /\ v <= 4294967295.
+Lemma wf_ttl_string t : wf_ttl_text t -> string_to_ttl t = ttl_of_text t.
+Proof.
+  intros [H [v [E L]]]. rewrite string_to_ttl_spec by exact H. rewrite E.
+  destruct (4294967295 <? v) eqn:C; [lia|reflexivity].
+Qed.
+
+Lemma slurp_count_nl t rest : t_val t = ZNewline -> slurp_count (t :: rest) = inr 1%nat.
+Proof.
+  intro H. unfold slurp_count, slurp_remainder. cbn [next_tok]. unfold is_val. rewrite H.
+  cbn [tval_eqb tval_code N.eqb Pos.eqb orb]. cbn [length]. f_equal. lia.
+Qed.
+
+Lemma origin_entry cf p st n tD tB tN tNl rest :
+  pinv p st -> s_origin st <> [] -> wf_name n ->
+  realizes tD (mkSk ZDirOrigin [] 0) -> realizes tB sk_blank -> realizes tN (sk_str n) -> realizes tNl sk_nl ->
+  exists p', zloop cf p XOwnerDir 0 (tD :: tB :: tN :: tNl :: rest) = zloop cf p' XOwnerDir 0 rest /\
+             pinv p' (mkDst (complete (s_origin st) n) (s_owner st) (s_dollar st) (s_stated st) (s_default st)).
+Proof.
+  intros [I1 [I2 I3]] Ho Hn R1 R2 R3 R4. tok_facts.
+  eexists. split.
+  - zs. zs. zs.
+    rewrite (slurp_count_nl tNl rest) by assumption.
+    cbn [p_origin set_h]. rewrite I1, (to_absolute_complete _ _ Ho Hn).
+    rewrite zloop_skip. reflexivity.
+  - repeat split; cbn; auto.
+    destruct (p_defttl p); cbn; auto.
+Qed.
+
+Lemma ttl_entry cf p st t v tD tB tN tNl rest :
+  pinv p st -> wf_ttl_text t -> ttl_of_text t = Some v ->
+  realizes tD (mkSk ZDirTTL [] 0) -> realizes tB sk_blank -> realizes tN (sk_str t) -> realizes tNl sk_nl ->
+  exists p', zloop cf p XOwnerDir 0 (tD :: tB :: tN :: tNl :: rest) = zloop cf p' XOwnerDir 0 rest /\
+             pinv p' (mkDst (s_origin st) (s_owner st) (Some v) (s_stated st) (s_default st)).
+Proof.
+  intros [I1 [I2 I3]] Hw Hv R1 R2 R3 R4. tok_facts.
+  eexists. split.
+  - zs. zs. zs.
+    rewrite (slurp_count_nl tNl rest) by assumption.
+    rewrite (wf_ttl_string _ Hw), Hv.
+    rewrite zloop_skip. reflexivity.
+  - repeat split; cbn; auto.
+    destruct (p_defttl p); cbn; auto.
+Qed.
+
+(* the parser state when the RDATA is reached *)
+Definition hdr_state (p : pst) (owner : bytes) (ttl : option N) (cls : option N) (ty : N) : pst :=
+  let d := p_defttl p in
+  let base := match d with Some d0 => ttl_v d0 | None => h_ttl (p_h p) end in
+  let d' := match ttl with
+            | Some v => match d with
+                        | Some d0 => if ttl_dir d0 then Some d0 else Some (mkTtl v false)
+                        | None => Some (mkTtl v false)
+                        end
+            | None => d
+            end in
+  mkPst (p_origin p) d'
+        (mkHdr owner ty (match cls with Some c => c | None => 1 end)
+               (match ttl with Some v => v | None => base end)).
+
+Ltac inv_f2 :=
+  repeat match goal with
+         | H : Forall2 realizes _ (_ :: _) |- _ => inversion H; subst; clear H
+         | H : Forall2 realizes _ [] |- _ => inversion H; subst; clear H
+         end.
+
+Definition sk_hdr (r : recd) : list stok :=
+  let own := match d_owner r with Some n => [mkSk ZOwner n 0] | None => [] end in
+  let ttl := match d_ttl r with Some t => [sk_blank; sk_str t] | None => [] end in
+  let cls := match d_class r with Some c => [sk_blank; mkSk ZClass [] c] | None => [] end in
+  own ++ (if d_ttl_first r then ttl ++ cls else cls ++ ttl) ++ [sk_blank; mkSk ZRrtpe [] (d_type r)].
+
+Lemma sk_rec_split r : sk_rec r = sk_hdr r ++ sk_blank :: sk_rd (d_rd r) ++ [sk_nl].
+Proof.
+  unfold sk_rec, sk_hdr. cbv zeta. rewrite <- !app_assoc. cbn [app]. reflexivity.
+Qed.
+
+Lemma header_walk cf p r ts tB rest owner :
+  p_origin p <> [] ->
+  match d_owner r with
+  | Some n => wf_name n /\ owner = complete (p_origin p) n
+  | None => owner = h_name (p_h p)
+  end ->
+  match d_ttl r with Some t => wf_ttl_text t | None => p_defttl p <> None end ->
+  Forall2 realizes ts (sk_hdr r) -> t_err tB = false ->
+  zloop cf p XOwnerDir 0 (ts ++ tB :: rest) =
+  rdata_step (hdr_state p owner (match d_ttl r with Some t => ttl_of_text t | None => None end)
+                        (d_class r) (d_type r)) tB rest.
+Proof.
+  intros Ho Hown Httl HF HeB.
+  destruct r as [ow tt cl tf ty rd]. unfold sk_hdr in HF. cbn [d_owner d_ttl d_class d_ttl_first d_type] in *.
+  destruct p as [po pd ph]. cbn [p_origin p_defttl p_h] in *.
+  destruct ow as [n|]; destruct tt as [t|]; destruct cl as [c|]; destruct tf; cbn in HF; inv_f2; tok_facts;
+    cbn [app];
+    try (pose proof (wf_ttl_string _ Httl) as Hs; destruct Httl as [_ [v [Ev _]]]; rewrite Ev in *);
+    repeat (zs; cbn [p_origin p_defttl p_h set_h];
+            try rewrite (to_absolute_complete _ _ Ho (proj1 Hown));
+            try rewrite Hs; cbv beta iota).
+  all: try (destruct pd as [[dv dd]|]; [|try contradiction]).
+  all: try destruct dd.
+  all: repeat (zs; cbn [p_origin p_defttl p_h set_h]; cbv beta iota).
+  all: cbn [stated_ttl p_origin p_defttl p_h set_h h_set_ttl h_set_class h_set_name h_set_type hdr_state
+            ttl_v ttl_dir h_name h_type h_class h_ttl].
+  all: try (destruct Hown as [_ ->]).
+  all: try subst owner.
+  all: try reflexivity.
+Qed.
+
+(* ---------- RDATA ---------- *)
+Lemma family_known t : family_of t <> FOther -> known_type t = true.
+Proof.
+  unfold family_of.
+  repeat match goal with
+         | |- context [if ?a =? ?b then _ else _] =>
+           destruct (N.eqb_spec a b) as [->|]; [intros _; vm_compute; reflexivity|]
+         end.
+  intro H. contradiction H. reflexivity.
+Qed.
+
+Ltac rds :=
+  cbn [next_tok peek_tok fst snd]; unfold is_val;
+  repeat match goal with H : t_val ?t = _ |- context [t_val ?t] => rewrite H end;
+  repeat match goal with H : t_text ?t = _ |- context [t_text ?t] => rewrite H end;
+  repeat match goal with H : t_err ?t = _ |- context [t_err ?t] => rewrite H end;
+  cbn [tval_eqb tval_code N.eqb Pos.eqb negb orb andb next_tok peek_tok fst snd].
+
+Lemma slurp_nl tNl rest : t_val tNl = ZNewline -> slurp_remainder (tNl :: rest) = (None, rest).
+Proof. intro H. unfold slurp_remainder. cbn [next_tok]. rds. reflexivity. Qed.
+
+Definition not_generic (s : bytes) : Prop := s <> [] /\ s <> [92; 35].
+Lemma not_generic_eqb s : not_generic s -> bytes_eqb s [92; 35] = false.
+Proof. intros [_ H]. now apply bytes_eqb_neq. Qed.
+
+Lemma rd_name p tB tN tNl rest n m :
+  family_of (h_type (p_h p)) = FName m -> p_origin p <> [] -> wf_name n -> not_generic n ->
+  t_val tB = ZBlank -> realizes tN (sk_str n) -> realizes tNl sk_nl ->
+  rdata_step p tB (tN :: tNl :: rest) = NRec (mkRR (p_h p) (RName (complete (p_origin p) n)) 0) p rest.
+Proof.
+  intros F Ho Hn Hg HB R1 R2. tok_facts.
+  unfold rdata_step. cbv zeta. rds.
+  destruct n as [|c n']; [destruct Hg; contradiction|].
+  rds. rewrite (family_known _ ltac:(rewrite F; discriminate)).
+  rewrite (not_generic_eqb _ Hg). cbn [negb orb andb]. rewrite F.
+  unfold parse_name_rd. rds. rewrite (to_absolute_complete _ _ Ho Hn). rds.
+  unfold after_slurp. rewrite (slurp_nl tNl rest) by assumption. reflexivity.
+Qed.
+
+Lemma rd_addr p tB tN tNl rest text a :
+  (h_type (p_h p) = 1 /\ parse_a text = Some a) \/ (h_type (p_h p) = 28 /\ parse_aaaa text = Some a) ->
+  not_generic text ->
+  t_val tB = ZBlank -> realizes tN (sk_str text) -> realizes tNl sk_nl ->
+  rdata_step p tB (tN :: tNl :: rest) = NRec (mkRR (p_h p) (RAddr a) 0) p rest.
+Proof.
+  intros Ht Hg HB R1 R2. tok_facts.
+  unfold rdata_step. cbv zeta. rds.
+  destruct text as [|c n'] eqn:Etext; [destruct Hg; contradiction|]. rewrite <- Etext in *.
+  rds.
+  destruct Ht as [[T P]|[T P]]; rewrite T.
+  - change (known_type 1) with true. rewrite (not_generic_eqb _ Hg). cbn [negb orb andb].
+    change (family_of 1) with FA. cbv iota. unfold parse_a_rd. rds. rewrite P. rds.
+    unfold after_slurp. rewrite (slurp_nl tNl rest) by assumption. reflexivity.
+  - change (known_type 28) with true. rewrite (not_generic_eqb _ Hg). cbn [negb orb andb].
+    change (family_of 28) with FAAAA. cbv iota. unfold parse_aaaa_rd. rds. rewrite P. rds.
+    unfold after_slurp. rewrite (slurp_nl tNl rest) by assumption. reflexivity.
+Qed.
+
+(* a written character-string: empty, or at most 255 units with no dangling backslash *)
+Definition txt_ok (s : bytes) : Prop := s = [] \/ split255 (length s) s = Some [s].
+
+Ltac tg := cbn [txt_go app]; rds.
+
+Lemma txt_go_nl m tNl rest acc e :
+  t_val tNl = ZNewline -> txt_go m tNl rest acc false e = RdOk (RTxt acc) 0 rest.
+Proof. intro H. destruct rest; cbn [txt_go]; rds; reflexivity. Qed.
+
+Lemma sk_txt_cons s l : exists ks, sk_txt (s :: l) = sk_quote :: ks.
+Proof. destruct l; cbn [sk_txt]; unfold sk_qstr; cbn [app]; eauto. Qed.
+Lemma f2_sk_txt_nonempty toks s l : Forall2 realizes toks (sk_txt (s :: l)) -> exists f m, toks = f :: m.
+Proof.
+  destruct (sk_txt_cons s l) as [ks ->]. intro H. inversion H; subst. eauto.
+Qed.
+
+Definition keep (P : Prop) : Prop := P.
+
+Lemma txt_go_strings m : forall l toks tNl rest acc e first more,
+  l <> [] -> Forall txt_ok l -> Forall2 realizes toks (sk_txt l) -> realizes tNl sk_nl ->
+  toks = first :: more ->
+  txt_go m first (more ++ tNl :: rest) acc false e = RdOk (RTxt (acc ++ l)) 0 rest.
+Proof.
+  induction l as [|s l0 IH]; intros toks tNl rest acc e first more Hne Hok HF RN Htoks; [contradiction|].
+  assert (RN0 : keep (realizes tNl sk_nl)) by exact RN.
+  inversion Hok as [|? ? Hs Hok0]; subst.
+  destruct l0 as [|s2 l'].
+  - (* last string *)
+    cbn [sk_txt sk_qstr] in HF.
+    destruct s as [|c s'].
+    + unfold sk_qstr in HF; cbn [app] in HF. inv_f2. tok_facts.
+      tg. tg. rewrite andb_false_r. cbn [andb]. rewrite txt_go_nl by assumption. reflexivity.
+    + unfold sk_qstr in HF; cbn [app] in HF. inv_f2. tok_facts.
+      destruct Hs as [Hs|Hs]; [discriminate|].
+      tg. tg. rewrite Hs. tg. rewrite andb_false_r. cbn [andb]. rewrite txt_go_nl by assumption. reflexivity.
+  - (* a string, a blank, and more *)
+    assert (Hne' : s2 :: l' <> []) by discriminate.
+    cbn [sk_txt] in HF. fold (sk_txt (s2 :: l')) in HF.
+    destruct s as [|c s'].
+    + unfold sk_qstr in HF; cbn [app] in HF.
+      inversion HF as [|q1 ? t1 ? R1 HF1]; subst. inversion HF1 as [|q2 ? t2 ? R2 HF2]; subst.
+      inversion HF2 as [|b ? t3 ? R3 HF3]; subst. clear HF HF1 HF2.
+      destruct (f2_sk_txt_nonempty _ _ _ HF3) as [f' [m' ->]].
+      tok_facts.
+      tg. tg. rewrite andb_false_r. cbn [andb]. tg.
+      erewrite (IH (f' :: m') tNl rest _ true f' m' Hne' Hok0 HF3 RN0 eq_refl).
+      rewrite <- app_assoc. reflexivity.
+    + unfold sk_qstr in HF; cbn [app] in HF.
+      inversion HF as [|q1 ? t1 ? R1 HF1]; subst. inversion HF1 as [|st ? t2 ? R2 HF2]; subst.
+      inversion HF2 as [|q2 ? t3 ? R3 HF3]; subst. inversion HF3 as [|b ? t4 ? R4 HF4]; subst.
+      clear HF HF1 HF2 HF3.
+      destruct (f2_sk_txt_nonempty _ _ _ HF4) as [f' [m' ->]].
+      tok_facts.
+      destruct Hs as [Hs|Hs]; [discriminate|].
+      tg. tg. rewrite Hs. tg. rewrite andb_false_r. cbn [andb]. tg.
+      erewrite (IH (f' :: m') tNl rest _ true f' m' Hne' Hok0 HF4 RN0 eq_refl).
+      rewrite <- app_assoc. reflexivity.
+Qed.
+
+Lemma rd_txt p tB toks tNl rest l m :
+  family_of (h_type (p_h p)) = FTxt m -> l <> [] -> Forall txt_ok l ->
+  t_val tB = ZBlank -> Forall2 realizes toks (sk_txt l) -> realizes tNl sk_nl ->
+  rdata_step p tB (toks ++ tNl :: rest) = NRec (mkRR (p_h p) (RTxt l) 0) p rest.
+Proof.
+  intros F Hne Hok HB HF RN.
+  destruct l as [|s l0]; [contradiction|].
+  destruct (f2_sk_txt_nonempty _ _ _ HF) as [f [mo ->]].
+  pose proof (txt_go_strings (B m) (s :: l0) (f :: mo) tNl rest [] false f mo Hne Hok HF RN eq_refl) as G.
+  destruct (sk_txt_cons s l0) as [ks Eks]. rewrite Eks in HF.
+  inversion HF as [|? ? ? ? Rf _]; subst. clear HF.
+  destruct Rf as (Hv & He & Hn & Ht & Hc). cbn in Hv, Ht. specialize (Ht eq_refl).
+  unfold rdata_step. cbv zeta. cbn [app]. rds. cbv iota.
+  rewrite (family_known _ ltac:(rewrite F; discriminate)).
+  cbn [bytes_eqb N.eqb Pos.eqb andb negb orb]. rewrite F.
+  unfold parse_txt_rd. rds. rewrite G. reflexivity.
+Qed.
+
+(* \# <length> <hex words> *)
+Lemma ets_words m : forall ws toks tNl rest acc first more,
+  ws <> [] -> Forall (fun w => w <> []) ws -> Forall2 realizes toks (sk_words ws) -> t_val tNl = ZNewline ->
+  t_err tNl = false -> toks = first :: more ->
+  ending_to_string m first (more ++ tNl :: rest) acc = inr (acc ++ concat ws, rest).
+Proof.
+  induction ws as [|w ws0 IH]; intros toks tNl rest acc first more Hne Hw HF HN HE Htoks; [contradiction|].
+  subst toks.
+  destruct ws0 as [|w2 ws'].
+  - cbn [sk_words] in HF. inv_f2. tok_facts.
+    cbn [ending_to_string app]. rds. cbn [concat]. rewrite app_nil_r.
+    destruct rest; cbn [ending_to_string]; rds; reflexivity.
+  - cbn [sk_words] in HF. fold (sk_words (w2 :: ws')) in HF.
+    inversion HF as [|a ? t1 ? R1 HF1]; subst. inversion HF1 as [|b ? t2 ? R2 HF2]; subst. clear HF HF1.
+    assert (exists f' m', t2 = f' :: m') as [f' [m' ->]].
+    { destruct ws'; cbn [sk_words] in HF2; inversion HF2; subst; eauto. }
+    tok_facts. inversion Hw as [|? ? _ Hw0]; subst.
+    cbn [ending_to_string app]. rds. cbn [ending_to_string app]. rds.
+    erewrite (IH (f' :: m') tNl rest _ f' m' ltac:(discriminate) Hw0 HF2 HN HE eq_refl).
+    cbn [concat]. rewrite <- app_assoc. reflexivity.
+Qed.
+
+Lemma rd_gen p tB tH tB2 tL toks tNl rest len hs n :
+  known_type (h_type (p_h p)) = false ->
+  parse_uint len 16 = Some n -> n * 2 = lenN (concat hs) -> Forall (fun w => w <> []) hs ->
+  t_val tB = ZBlank -> realizes tH (sk_str [92; 35]) -> realizes tB2 sk_blank -> realizes tL (sk_str len) ->
+  Forall2 realizes toks (match hs with [] => [] | _ => sk_blank :: sk_words hs end) -> realizes tNl sk_nl ->
+  rdata_step p tB (tH :: tB2 :: tL :: toks ++ tNl :: rest) = NRec (mkRR (p_h p) (RGen (concat hs)) 0) p rest.
+Proof.
+  intros K PL EL Hw HB RH RB RL HF RN. tok_facts.
+  unfold rdata_step. cbv zeta. rds. cbv iota. rewrite K. cbn [negb orb].
+  unfold parse_3597. rds. cbn [bytes_eqb N.eqb Pos.eqb andb negb]. rds. rewrite PL. rds.
+  destruct hs as [|w ws].
+  - inv_f2. cbn [app]. rds. cbn [concat] in *.
+    destruct rest; cbn [ending_to_string]; rds; cbn [concat lenN length N.of_nat] in *;
+      (replace (n * 2 =? 0) with true by lia); reflexivity.
+  - inversion HF as [|b ? t1 ? R1 HF1]; subst. clear HF.
+    assert (exists f' m', t1 = f' :: m') as [f' [m' ->]].
+    { destruct ws; cbn [sk_words] in HF1; inversion HF1; subst; eauto. }
+    tok_facts. cbn [app]. rds. cbn [ending_to_string app]. rds.
+    erewrite (ets_words _ (w :: ws) (f' :: m') tNl rest [] f' m' ltac:(discriminate) Hw HF1 ltac:(assumption) ltac:(assumption) eq_refl).
+    cbn [app]. rewrite EL, N.eqb_refl. reflexivity.
+Qed.
+
+(* ---------- a record line ---------- *)
+Definition wf_rd (t : N) (w : rdw) : Prop :=
+  match w with
+  | WName n => (exists m, family_of t = FName m) /\ wf_name n /\ not_generic n
+  | WAddr text => not_generic text /\ (t = 1 \/ t = 28)
+  | WTxt l => (exists m, family_of t = FTxt m) /\ l <> [] /\ Forall txt_ok l
+  | WGen len hs => known_type t = false /\
+                   (exists n, parse_uint len 16 = Some n /\ n * 2 = lenN (concat hs)) /\
+                   Forall (fun w => w <> []) hs
+  end.
+Definition wf_rec (r : recd) : Prop :=
+  match d_owner r with Some n => wf_name n | None => True end /\
+  match d_ttl r with Some t => wf_ttl_text t | None => True end /\
+  wf_rd (d_type r) (d_rd r).
+Definition wf_entry (e : entry) : Prop :=
+  match e with DRec r => wf_rec r | DOrigin n => wf_name n | DTtl t => wf_ttl_text t end.
+
+Lemma first_some_defttl st v :
+  first_some (s_dollar st) (s_stated st) (s_default st) = Some v ->
+  exists d, defttl_of st = Some (mkTtl v d).
+Proof.
+  unfold first_some, defttl_of.
+  destruct (s_dollar st); [intro E; injection E as ->; eauto|].
+  destruct (s_stated st); [intro E; injection E as ->; eauto|].
+  destruct (s_default st); [intro E; injection E as ->; eauto|discriminate].
+Qed.
+
+Lemma rdata_entry p tB ts tNl rest t w rd :
+  h_type (p_h p) = t -> p_origin p <> [] -> wf_rd t w -> denote_rd (p_origin p) t w = Some rd ->
+  t_val tB = ZBlank -> Forall2 realizes ts (sk_rd w) -> realizes tNl sk_nl ->
+  rdata_step p tB (ts ++ tNl :: rest) = NRec (mkRR (p_h p) rd 0) p rest.
+Proof.
+  intros Ht Ho Hw Hd HB HF RN. subst t.
+  destruct w as [n|text|l|len hs]; cbn [wf_rd denote_rd sk_rd] in *.
+  - destruct Hw as [[m F] [Hn Hg]]. injection Hd as <-. inv_f2. cbn [app].
+    eapply rd_name; eauto.
+  - destruct Hw as [Hg Ht]. inv_f2. cbn [app].
+    destruct Ht as [Ht|Ht]; rewrite Ht in Hd; cbn in Hd.
+    + destruct (parse_a text) as [a|] eqn:P; [|discriminate]. injection Hd as <-.
+      eapply rd_addr; eauto.
+    + destruct (parse_aaaa text) as [a|] eqn:P; [|discriminate]. injection Hd as <-.
+      eapply rd_addr; eauto.
+  - destruct Hw as [[m F] [Hne Hok]]. injection Hd as <-. eapply rd_txt; eauto.
+  - destruct Hw as [K [[n [PL EL]] Hws]]. injection Hd as <-.
+    inversion HF as [|a ? t1 ? R1 HF1]; subst. inversion HF1 as [|b ? t2 ? R2 HF2]; subst.
+    inversion HF2 as [|c ? t3 ? R3 HF3]; subst. clear HF HF1 HF2.
+    cbn [app]. eapply rd_gen; eauto.
+Qed.
+
+Lemma record_entry cf p st r ts rest recs st' :
+  pinv p st -> s_origin st <> [] -> wf_rec r ->
+  Forall2 realizes ts (sk_rec r) -> denote1 st (DRec r) = Some (recs, st') ->
+  exists x p', recs = [x] /\ zloop cf p XOwnerDir 0 (ts ++ rest) = NRec x p' rest /\ pinv p' st'.
+Proof.
+  intros [I1 [I2 I3]] Ho [Wo [Wt Wr]] HF HD.
+  rewrite sk_rec_split in HF.
+  apply Forall2_app_inv_r in HF. destruct HF as [tsh [ts2 [HFh [HF2 ->]]]].
+  inversion HF2 as [|tB ? ts3 ? RB HF3]; subst. clear HF2.
+  apply Forall2_app_inv_r in HF3. destruct HF3 as [tsr [tsn [HFr [HFn ->]]]].
+  inversion HFn as [|tNl ? tn0 ? RN HFn0]; subst. inversion HFn0; subst. clear HFn HFn0.
+  unfold denote1 in HD.
+  destruct (match d_owner r with Some n => Some (complete (s_origin st) n) | None => s_owner st end)
+    as [owner|] eqn:EO; [|discriminate].
+  destruct (match d_ttl r with
+            | Some _ => match d_ttl r with Some t => ttl_of_text t | None => None end
+            | None => first_some (s_dollar st) (s_stated st) (s_default st)
+            end) as [ttl|] eqn:ET; [|discriminate].
+  destruct (denote_rd (s_origin st) (d_type r) (d_rd r)) as [rd|] eqn:ER; [|discriminate].
+  injection HD as <- <-.
+  assert (HeB : t_err tB = false) by (destruct RB as (_ & H & _); exact H).
+  assert (HvB : t_val tB = ZBlank) by (destruct RB as (H & _); exact H).
+  rewrite <- I1 in Ho.
+  rewrite <- app_assoc. cbn [app]. rewrite <- app_assoc. cbn [app].
+  erewrite (header_walk cf p r tsh tB _ owner Ho); eauto.
+  - eexists _, _. split; [reflexivity|]. split.
+    + erewrite rdata_entry; eauto.
+      * cbn. f_equal. f_equal.
+        destruct (d_ttl r) as [t|] eqn:Et.
+        -- rewrite ET. reflexivity.
+        -- cbn. apply first_some_defttl in ET. destruct ET as [d ED]. rewrite I2, ED. reflexivity.
+      * cbn. rewrite I1. exact ER.
+    + repeat split; cbn.
+      * exact I1.
+      * rewrite I2. unfold defttl_of. cbn.
+        destruct (d_ttl r) as [t|] eqn:Et; [|reflexivity].
+        rewrite ET. destruct (s_dollar st); [reflexivity|].
+        destruct (s_stated st); [reflexivity|]. destruct (s_default st); reflexivity.
+      * intros o E. injection E as <-. reflexivity.
+  - destruct (d_owner r) as [n|]; [split; [exact Wo|]|].
+    + injection EO as <-. now rewrite I1.
+    + symmetry. now apply I3.
+  - destruct (d_ttl r) as [t|]; [exact Wt|].
+    apply first_some_defttl in ET. destruct ET as [d ED]. rewrite I2, ED. discriminate.
+Qed.
+
+(* ---------- a whole zone ---------- *)
+Lemma complete_nonempty origin n : origin <> [] -> wf_name n -> complete origin n <> [].
+Proof.
+  intros Ho Hn. unfold complete.
+  destruct (bytes_eqb n [64]); [exact Ho|].
+  destruct (is_fqdn n) eqn:F.
+  - intro E. subst n. discriminate F.
+  - destruct (bytes_eqb origin [46]); intro E; apply app_eq_nil in E; destruct E as [_ E]; discriminate.
+Qed.
+
+Lemma f2_length {A B} (R : A -> B -> Prop) l l' : Forall2 R l l' -> length l = length l'.
+Proof. induction 1; cbn; congruence. Qed.
+
+Section Files.
+  Variable fs_open os_open : bytes -> option bytes.
+  Notation level := (level fs_open os_open).
+  Notation run_d := (run_d fs_open os_open).
+
+  Lemma level_directive inc gen cf f p p' ts rest :
+    zloop cf p XOwnerDir 0 (ts ++ rest) = zloop cf p' XOwnerDir 0 rest ->
+    level inc gen cf (S f) p (ts ++ rest) None = level inc gen cf (S f) p' rest None.
+  Proof. intro H. rewrite !level_S. unfold Zone.level_body. now rewrite H. Qed.
+
+  Lemma zone_refines inc gen cf : forall es st p toks recs fuel,
+    pinv p st -> s_origin st <> [] -> Forall wf_entry es ->
+    Forall2 realizes toks (sk_zone es) -> denote_go st es = Some recs ->
+    (length toks < fuel)%nat ->
+    level inc gen cf fuel p toks None = map ERec recs.
+  Proof.
+    induction es as [|e es IH]; intros st p toks recs fuel I Ho Hwf HF HD Hf.
+    - inversion HF; subst. cbn in HD. injection HD as <-.
+      destruct fuel as [|f]; [cbn in Hf; lia|]. reflexivity.
+    - cbn [sk_zone flat_map] in HF. fold (sk_zone es) in HF.
+      apply Forall2_app_inv_r in HF. destruct HF as [t1 [t2 [HF1 [HF2 ->]]]].
+      inversion Hwf as [|? ? We Wes]; subst.
+      cbn [denote_go] in HD.
+      destruct (denote1 st e) as [[recs1 st1]|] eqn:D1; [|discriminate].
+      destruct (denote_go st1 es) as [more|] eqn:D2; [|discriminate].
+      injection HD as <-.
+      rewrite app_length in Hf.
+      destruct fuel as [|f]; [lia|].
+      destruct e as [r|n|t].
+      + (* a record *)
+        cbn [sk_entry wf_entry] in *.
+        destruct (record_entry cf p st r t1 t2 recs1 st1 I Ho We HF1 D1) as [x [p' [-> [Z I']]]].
+        rewrite level_S. unfold Zone.level_body. rewrite Z.
+        assert (L1 : (1 <= length t1)%nat).
+        { rewrite sk_rec_split in HF1. apply f2_length in HF1. rewrite HF1, app_length.
+          cbn. lia. }
+        cbn [app map]. f_equal.
+        apply (IH st1 p' t2 more f I'); auto; [|lia].
+        unfold denote1 in D1.
+        destruct (match d_owner r with Some n0 => _ | None => _ end); [|discriminate].
+        destruct (match d_ttl r with Some _ => _ | None => _ end); [|discriminate].
+        destruct (denote_rd _ _ _); [|discriminate].
+        injection D1 as _ <-. exact Ho.
+      + (* $ORIGIN *)
+        cbn [sk_entry] in HF1. inv_f2.
+        cbn [denote1] in D1. injection D1 as <- <-.
+        destruct (origin_entry cf p st n _ _ _ _ t2 I Ho We ltac:(eassumption) ltac:(eassumption)
+                               ltac:(eassumption) ltac:(eassumption)) as [p' [Z I']].
+        cbn [app] in *. change (?a :: ?b :: ?c :: ?d :: t2) with ([a; b; c; d] ++ t2).
+        rewrite (level_directive inc gen cf f p p' [_; _; _; _] t2 Z).
+        cbn [app]. apply (IH _ p' t2 more (S f) I'); auto; [|cbn in Hf; lia].
+        cbn. now apply complete_nonempty.
+      + (* $TTL *)
+        cbn [sk_entry] in HF1. inv_f2.
+        cbn [denote1] in D1.
+        destruct (ttl_of_text t) as [v|] eqn:Ev; [|discriminate]. injection D1 as <- <-.
+        destruct (ttl_entry cf p st t v _ _ _ _ t2 I We Ev ltac:(eassumption) ltac:(eassumption)
+                            ltac:(eassumption) ltac:(eassumption)) as [p' [Z I']].
+        cbn [app] in *. change (?a :: ?b :: ?c :: ?d :: t2) with ([a; b; c; d] ++ t2).
+        rewrite (level_directive inc gen cf f p p' [_; _; _; _] t2 Z).
+        cbn [app]. apply (IH _ p' t2 more (S f) I'); auto. cbn in Hf; lia.
+  Qed.
+
+  (* the parser on the tokens of a zone yields exactly the records it denotes *)
+  Theorem zp_refines_tokens d cf origin default es toks recs :
+    origin <> [] -> is_fqdn origin = true -> is_domain_name origin = true ->
+    Forall wf_entry es -> Forall2 realizes toks (sk_zone es) ->
+    denote origin default es = Some recs ->
+    run_d d cf origin (match default with Some t => Some (mkTtl t false) | None => None end) toks None
+    = map ERec recs.
+  Proof.
+    intros Ho Hf Hd Hwf HF HD.
+    assert (K : forall inc gen,
+      new_parser (level inc gen) cf origin
+                 (match default with Some t => Some (mkTtl t false) | None => None end) toks None
+      = map ERec recs).
+    { intros inc gen. unfold new_parser.
+      assert (E : match origin with [] => [] | _ :: _ => fqdn origin end = origin).
+      { destruct origin; [contradiction|]. unfold fqdn. now rewrite Hf. }
+      rewrite E.
+      assert (E2 : match origin with [] => false | _ :: _ => negb (is_domain_name origin) end = false).
+      { destruct origin; [reflexivity|]. now rewrite Hd. }
+      rewrite E2.
+      eapply zone_refines; eauto.
+      - repeat split; cbn; auto; try (destruct default; reflexivity); try discriminate.
+      - exact Ho. }
+    destruct d as [|d']; cbn [Zone.run_d]; apply K.
+  Qed.
+End Files.
+
+(* ---------- $INCLUDE splices the file's records ---------- *)
+Section Splice.
+  Variable fs_open os_open : bytes -> option bytes.
+  Notation level_body := (level_body fs_open os_open).
+
+  (* When Next meets an $INCLUDE (allowed, not too deep, the file opens), what
+     follows is: the open, everything the file's parser yields under the stated
+     origin with the includer's TTL state, and then the includer's own
+     continuation in the state it had: its origin is unchanged. *)
+  Lemma include_splices sub gen cf rerr k p toks l neworigin p' rest content :
+    zloop cf p XOwnerDir 0 toks = NInclude l neworigin p' rest ->
+    Nat.leb maxIncludeDepth (c_depth cf) = false ->
+    (if c_fs cf then fs_open (include_path (c_fs cf) (c_file cf) (t_text l))
+     else os_open (include_path (c_fs cf) (c_file cf) (t_text l))) = Some content ->
+    let path := include_path (c_fs cf) (c_file cf) (t_text l) in
+    let evs := sub (mkCfg path true (c_fs cf) false (S (c_depth cf))) neworigin (p_defttl p')
+                   (lex content) None in
+    failed evs = false ->
+    level_body (Some sub) gen cf rerr k p toks = EOpen (c_fs cf) path true (S (c_depth cf)) :: evs ++ k p' rest.
+  Proof.
+    intros Z D O path evs F. subst path evs. unfold Zone.level_body. rewrite Z, D. cbv zeta.
+    rewrite O, F. reflexivity.
+  Qed.
+End Splice.
+
+(* the $INCLUDE line itself: the origin argument is completed with the
+   includer's origin, and the includer's state is what it was *)
+Lemma include_line cf p tD tB tF tB2 tO tNl rest file o :
+  c_inc cf = true -> p_origin p <> [] -> wf_name o -> file <> [] ->
+  realizes tD (mkSk ZDirInclude [] 0) -> realizes tB sk_blank -> realizes tF (sk_str file) ->
+  realizes tB2 sk_blank -> realizes tO (sk_str o) -> realizes tNl sk_nl ->
+  exists p', zloop cf p XOwnerDir 0 (tD :: tB :: tF :: tB2 :: tO :: tNl :: rest)
+             = NInclude tF (complete (p_origin p) o) p' (tNl :: rest) /\
+             p_origin p' = p_origin p /\ p_defttl p' = p_defttl p.
+Proof.
+  intros Hi Ho Hw Hf R1 R2 R3 R4 R5 R6. tok_facts.
+  eexists. split.
+  - zs. zs. zs. cbn [next_tok]. rds. cbn [p_origin set_h].
+    rewrite (to_absolute_complete _ _ Ho Hw). rewrite Hi. cbn [negb]. reflexivity.
+  - split; reflexivity.
+Qed.
+
+(* ---------- a worked zone: hypotheses of zp_refines_tokens are satisfiable ---------- *)
+Lemma tval_eqb_eq a b : tval_eqb a b = true -> a = b.
+Proof. destruct a, b; cbn; intro H; try reflexivity; discriminate. Qed.
+Lemma realizes_b_ok t k : realizes_b t k = true -> realizes t k.
+Proof.
+  unfold realizes_b, realizes. intro H.
+  repeat (apply andb_true_iff in H; destruct H as [H ?]).
+  repeat split.
+  - now apply tval_eqb_eq.
+  - now destruct (t_err t).
+  - intro E. rewrite E in *. discriminate.
+  - intro M. rewrite M in *. now apply bytes_eqb_eq.
+  - intro M. rewrite M in *. now apply N.eqb_eq.
+Qed.
+Lemma forall2b_realizes ts ks : forall2b realizes_b ts ks = true -> Forall2 realizes ts ks.
+Proof.
+  revert ks. induction ts as [|t ts IH]; intros [|k ks]; cbn; intro H; try discriminate; [constructor|].
+  apply andb_true_iff in H. destruct H as [H1 H2]. constructor; [now apply realizes_b_ok|auto].
+Qed.
+
+Definition nl1 : string := String (ascii_of_N 10) EmptyString.
+Definition ex_text : bytes :=
+  B ("$ORIGIN example.org." +++ nl1 +++ "$TTL 1h" +++ nl1 +++ "@ IN NS ns1" +++ nl1 +++
+     "ns1 300 IN A 192.0.2.1" +++ nl1 +++ " TXT ""a b"" """"" +++ nl1 +++
+     "x CH 5 TYPE65280 \# 2 ab cd" +++ nl1).
+Definition ex_zone : list entry :=
+  [ DOrigin (B "example.org."); DTtl (B "1h");
+    DRec (mkRecd (Some (B "@")) None (Some 1) false 2 (WName (B "ns1")));
+    DRec (mkRecd (Some (B "ns1")) (Some (B "300")) (Some 1) true 1 (WAddr (B "192.0.2.1")));
+    DRec (mkRecd None None None false 16 (WTxt [B "a b"; []]));
+    DRec (mkRecd (Some (B "x")) (Some (B "5")) (Some 3) false 65280 (WGen (B "2") [B "ab"; B "cd"])) ].
+
+Example ex_zone_tokens : forall2b realizes_b (lex ex_text) (sk_zone ex_zone) = true.
+Proof. vm_compute. reflexivity. Qed.
+
+Example ex_zone_denotes :
+  denote (B "test.") None ex_zone =
+  Some [ mkRR (mkHdr (B "example.org.") 2 1 3600) (RName (B "ns1.example.org.")) 0;
+         mkRR (mkHdr (B "ns1.example.org.") 1 1 300) (RAddr [192; 0; 2; 1]) 0;
+         mkRR (mkHdr (B "ns1.example.org.") 16 1 3600) (RTxt [B "a b"; []]) 0;
+         mkRR (mkHdr (B "x.example.org.") 65280 3 5) (RGen (B "abcd")) 0 ].
+Proof. vm_compute. reflexivity. Qed.
+
+Lemma wf_name_b n : (bytes_eqb n [64] || (is_domain_name n && negb (bytes_eqb n [10]))) = true -> wf_name n.
+Proof.
+  intro H. apply orb_true_iff in H. destruct H as [H|H].
+  - left. now apply bytes_eqb_eq.
+  - right. apply andb_true_iff in H. destruct H as [H1 H2]. split; [exact H1|].
+    intro E. subst n. discriminate.
+Qed.
+Lemma wf_ttl_b t v : ttl_nowrap t 0 0 = true -> ttl_of_text t = Some v -> (v <=? 4294967295) = true -> wf_ttl_text t.
+Proof. intros A E L. split; [exact A|]. exists v. split; [exact E|]. now apply N.leb_le. Qed.
+
+Example ex_zone_wf : Forall wf_entry ex_zone.
+Proof.
+  unfold ex_zone. repeat apply Forall_cons; try apply Forall_nil.
+  - apply wf_name_b. vm_compute. reflexivity.
+  - apply (wf_ttl_b _ 3600); vm_compute; reflexivity.
+  - split; [apply wf_name_b; vm_compute; reflexivity|]. split; [exact I|].
+    cbn [wf_rd d_type d_rd]. split; [exists "bad NS Ns"%string; vm_compute; reflexivity|].
+    split; [apply wf_name_b; vm_compute; reflexivity|]. split; discriminate.
+  - split; [apply wf_name_b; vm_compute; reflexivity|].
+    split; [apply (wf_ttl_b _ 300); vm_compute; reflexivity|].
+    cbn [wf_rd d_type d_rd]. split; [split; discriminate|left; reflexivity].
+  - split; [exact I|]. split; [exact I|].
+    cbn [wf_rd d_type d_rd]. split; [exists "bad TXT Txt"%string; vm_compute; reflexivity|].
+    split; [discriminate|].
+    constructor; [right; vm_compute; reflexivity|]. constructor; [left; reflexivity|constructor].
+  - split; [apply wf_name_b; vm_compute; reflexivity|].
+    split; [apply (wf_ttl_b _ 5); vm_compute; reflexivity|].
+    cbn [wf_rd d_type d_rd]. split; [vm_compute; reflexivity|].
+    split; [exists 2; split; vm_compute; reflexivity|].
+    constructor; [discriminate|]. constructor; [discriminate|constructor].
+Qed.
+
+(* the parser on the lexer's tokens of the worked text gives the denoted records *)
+Example ex_zone_parses :
+  run_d no_files no_files maxIncludeDepth (mkCfg [] false false false O) (B "test.") None (lex ex_text) None
+  = map ERec [ mkRR (mkHdr (B "example.org.") 2 1 3600) (RName (B "ns1.example.org.")) 0;
+               mkRR (mkHdr (B "ns1.example.org.") 1 1 300) (RAddr [192; 0; 2; 1]) 0;
+               mkRR (mkHdr (B "ns1.example.org.") 16 1 3600) (RTxt [B "a b"; []]) 0;
+               mkRR (mkHdr (B "x.example.org.") 65280 3 5) (RGen (B "abcd")) 0 ].
+Proof.
+  apply (zp_refines_tokens no_files no_files maxIncludeDepth _ (B "test.") None ex_zone).
+  - discriminate.
+  - vm_compute. reflexivity.
+  - vm_compute. reflexivity.
+  - exact ex_zone_wf.
+  - apply forall2b_realizes. exact ex_zone_tokens.
+  - exact ex_zone_denotes.
+Qed.
+
+(* ---------- $GENERATE expands one line per step ---------- *)
+Definition plain_char (c : N) : Prop := c <> 36 /\ c <> 92.
+(* a piece may follow the bare iterator only if it cannot be read as part of it *)
+Definition after_iter_ok (tpl : list gpiece) : Prop :=
+  match tpl with
+  | [] => True
+  | GLit (c :: _) :: _ => c <> 36 /\ c <> 123
+  | _ => False
+  end.
+Fixpoint wf_tpl (start stop : Z) (tpl : list gpiece) : Prop :=
+  match tpl with
+  | [] => True
+  | GLit s :: r => s <> [] /\ Forall plain_char s /\ wf_tpl start stop r
+  | GIter :: r => after_iter_ok r /\ wf_tpl start stop r
+  | GMod t :: r =>
+    ~ In 125 t /\
+    (exists w b off, mod_to_printf t = inr (w, b, off) /\
+                     (0 <= wrap64 (start + off))%Z /\ (wrap64 (stop + off) <= 2147483647)%Z) /\
+    wf_tpl start stop r
+  end.
+
+Lemma gen_line_skip whole pre : forall rest si esc cur start stop acc,
+  gen_line whole (pre ++ rest) si (length pre) esc cur start stop acc =
+  gen_line whole rest (si + lenN pre) 0 esc cur start stop acc.
+Proof.
+  induction pre as [|c pre IH]; intros rest si esc cur start stop acc.
+  - cbn. unfold lenN. cbn. now rewrite N.add_0_r.
+  - cbn [app length gen_line]. rewrite IH. f_equal. unfold lenN. cbn [length]. lia.
+Qed.
+
+Lemma gen_line_lit whole s : forall rest si cur start stop acc,
+  Forall plain_char s ->
+  gen_line whole (s ++ rest) si 0 false cur start stop acc =
+  gen_line whole rest (si + lenN s) 0 false cur start stop (rev s ++ acc).
+Proof.
+  induction s as [|c s IH]; intros rest si cur start stop acc H.
+  - cbn. unfold lenN. cbn. now rewrite N.add_0_r.
+  - inversion H as [|? ? [H1 H2] H3]; subst.
+    cbn [app gen_line].
+    replace (c =? 92) with false by lia. replace (c =? 36) with false by lia.
+    rewrite IH by exact H3. cbn [rev]. rewrite <- app_assoc. cbn [app].
+    f_equal. unfold lenN. cbn [length]. lia.
+Qed.
+
+Lemma index_of_app c t rest : forall i, ~ In c t -> index_of c (t ++ c :: rest) i = Some (i + length t)%nat.
+Proof.
+  induction t as [|x t IH]; intros i H; cbn [app index_of length].
+  - rewrite N.eqb_refl. f_equal. lia.
+  - destruct (x =? c) eqn:E; [exfalso; apply H; left; lia|].
+    rewrite IH; [f_equal; lia|]. intro K. apply H. now right.
+Qed.
+
+Lemma rev_frev_app {A} (x acc : list A) : rev (frev x ++ acc) = rev acc ++ x.
+Proof. rewrite frev_rev, rev_app_distr, rev_involutive. reflexivity. Qed.
+
+(* one pass of the reader over a template: every piece replaced *)
+Lemma gen_line_tpl whole start stop cur : forall tpl si acc,
+  wf_tpl start stop tpl ->
+  gen_line whole (render_tpl tpl) si 0 false cur start stop acc =
+  (rev acc ++ subst_tpl cur tpl, inl false).
+Proof.
+  induction tpl as [|p tpl IH]; intros si acc W.
+  - cbn. rewrite frev_rev, app_nil_r. reflexivity.
+  - destruct p as [s| |t]; cbn [wf_tpl] in W.
+    + destruct W as [_ [Hp W]].
+      change (render_tpl (GLit s :: tpl)) with (s ++ render_tpl tpl).
+      rewrite gen_line_lit by exact Hp. rewrite IH by exact W.
+      rewrite rev_app_distr, rev_involutive, <- app_assoc. reflexivity.
+    + destruct W as [Ha W].
+      change (render_tpl (GIter :: tpl)) with (36 :: render_tpl tpl).
+      cbn [gen_line]. change (36 =? 92) with false. change (36 =? 36) with true. cbv iota.
+      destruct tpl as [|q tpl'].
+      * cbn. rewrite frev_rev, app_nil_r. reflexivity.
+      * destruct q as [s| |]; cbn [after_iter_ok] in Ha; try contradiction.
+        destruct s as [|c s']; [contradiction|]. destruct Ha as [A1 A2].
+        set (R := render_tpl (GLit (c :: s') :: tpl')).
+        assert (ER : R = c :: (s' ++ render_tpl tpl')) by reflexivity.
+        rewrite ER at 1. cbv iota.
+        replace (c =? 36) with false by lia. replace (c =? 123) with false by lia.
+        subst R.
+        rewrite IH by exact W. rewrite rev_frev_app, <- app_assoc. reflexivity.
+    + destruct W as [Hn [[w [b [off [Hm [G1 G2]]]]] W]].
+      assert (ER : render_tpl (GMod t :: tpl) = 36 :: 123 :: (t ++ 125 :: render_tpl tpl)).
+      { unfold render_tpl. cbn [flat_map render_piece app]. rewrite <- app_assoc. reflexivity. }
+      rewrite ER. clear ER.
+      cbn [gen_line]. change (36 =? 92) with false. change (36 =? 36) with true.
+      change (123 =? 36) with false. change (123 =? 123) with true. cbv iota.
+      rewrite (index_of_app 125 t (render_tpl tpl) 0 Hn). cbn [Nat.add].
+      rewrite firstn_app_exact, Hm.
+      replace ((wrap64 (start + off) <? 0)%Z || (2147483647 <? wrap64 (stop + off))%Z) with false by lia.
+      assert (E : (t ++ 125 :: render_tpl tpl) = (t ++ [125]) ++ render_tpl tpl).
+      { rewrite <- app_assoc. reflexivity. }
+      rewrite E.
+      assert (L : S (length t) = length (t ++ [125])).
+      { rewrite app_length. cbn. lia. }
+      rewrite L, gen_line_skip. rewrite IH by exact W.
+      rewrite rev_frev_app, <- app_assoc. cbn [subst_tpl flat_map subst_piece]. rewrite Hm. reflexivity.
+Qed.
+
+Ltac Zify.zify_post_hook ::= Z.div_mod_to_equations.
+
+Lemma wrap64_small z : (0 <= z < two63)%Z -> wrap64 z = z.
+Proof. intro H. unfold wrap64, two63 in *. lia. Qed.
+Lemma wrap64_big z : (two63 <= z < 2 * two63)%Z -> (wrap64 z < 0)%Z.
+Proof. intro H. unfold wrap64, two63 in *. lia. Qed.
+
+(* the reader delivers one line per iterator value, every $ replaced *)
+Lemma gen_iter_tpl tpl start stop step :
+  wf_tpl start stop tpl -> (0 < step < two63)%Z -> (stop < two63)%Z ->
+  forall fuel cur, (0 <= cur <= stop)%Z ->
+  gen_iter fuel (render_tpl tpl) false cur start stop step =
+  (flat_map (fun i => subst_tpl i tpl ++ [10]) (gen_values fuel cur stop step), None).
+Proof.
+  intros W Hs Hst. induction fuel as [|f IH]; intros cur Hc; cbn [gen_iter gen_values].
+  - reflexivity.
+  - rewrite (gen_line_tpl _ start stop cur tpl 0 [] W). cbn [rev app].
+    destruct (stop <? cur + step)%Z eqn:E.
+    + assert (C : ((stop <? wrap64 (cur + step)) || (wrap64 (cur + step) <? 0))%Z = true).
+      { destruct (Z_lt_ge_dec (cur + step) two63) as [L|L].
+        - rewrite wrap64_small by lia. lia.
+        - pose proof (wrap64_big (cur + step)). unfold two63 in *. lia. }
+      rewrite C. cbn [flat_map]. rewrite app_nil_r. reflexivity.
+    + rewrite wrap64_small by lia.
+      replace ((stop <? cur + step) || (cur + step <? 0))%Z with false by lia.
+      rewrite IH by lia. cbn [flat_map]. rewrite <- app_assoc. reflexivity.
+Qed.
+
+Theorem generate_expands tpl start stop step :
+  wf_tpl start stop tpl -> (0 < step < two63)%Z -> (0 <= start <= stop)%Z -> (stop < two63)%Z ->
+  gen_bytes (render_tpl tpl) start stop step =
+  (flat_map (fun i => subst_tpl i tpl ++ [10]) (gen_values (gen_count start stop step) start stop step), None).
+Proof. intros W Hs Hr Hst. unfold gen_bytes. now apply gen_iter_tpl. Qed.
+
+(* the iterator values are start, start+step, ...: all of them *)
+Lemma gen_values_spec stop step : (0 < step)%Z -> forall n cur v,
+  In v (gen_values n cur stop step) -> exists k, (v = cur + Z.of_nat k * step)%Z /\ (k < n)%nat.
+Proof.
+  intros Hs. induction n as [|n IH]; intros cur v H; cbn [gen_values] in H; [contradiction|].
+  destruct H as [<-|H]; [exists O; split; lia|].
+  destruct (stop <? cur + step)%Z; [contradiction|].
+  apply IH in H. destruct H as [k [-> Hk]]. exists (S k). split; lia.
+Qed.
+Lemma gen_values_length start stop step : (0 < step)%Z -> (0 <= start <= stop)%Z ->
+  forall n cur, (start <= cur <= stop)%Z -> n = Z.to_nat ((stop - cur) / step + 1) ->
+  length (gen_values n cur stop step) = n.
+Proof.
+  intros Hs Hr. induction n as [|n IH]; intros cur Hc Hn; [reflexivity|]. cbn [gen_values length].
+  f_equal. destruct (stop <? cur + step)%Z eqn:E.
+  - assert ((stop - cur) / step = 0)%Z by (apply Z.div_small; lia). cbn. lia.
+  - apply IH; [lia|].
+    assert (E2 : ((stop - cur) / step = (stop - (cur + step)) / step + 1)%Z).
+    { replace (stop - cur)%Z with ((stop - (cur + step)) + 1 * step)%Z by lia.
+      rewrite Z.div_add by lia. reflexivity. }
+    assert (0 <= (stop - (cur + step)) / step)%Z by (apply Z.div_pos; lia). lia.
+Qed.
+
+Example ex_generate :
+  let tpl := [GLit (B "h"); GIter; GLit (B " PTR p"); GMod (B "1,3,x"); GLit (B ".")] in
+  render_tpl tpl = B "h$ PTR p${1,3,x}." /\
+  fst (gen_bytes (render_tpl tpl) 9 11 1) =
+  B ("h9 PTR p00a." +++ String (ascii_of_N 10) ("h10 PTR p00b." +++ String (ascii_of_N 10)
+     ("h11 PTR p00c." +++ String (ascii_of_N 10) EmptyString))).
+Proof. vm_compute. split; reflexivity. Qed.
+
+Lemma gen_values_all start stop step :
+  (0 < step)%Z -> (0 <= start <= stop)%Z ->
+  length (gen_values (gen_count start stop step) start stop step) = gen_count start stop step /\
+  (forall v, In v (gen_values (gen_count start stop step) start stop step) ->
+             exists k : nat, (v = start + Z.of_nat k * step)%Z).
+Proof.
+  intros Hs Hr. split.
+  - apply (gen_values_length start stop step Hs Hr); [lia|reflexivity].
+  - intros v H. destruct (gen_values_spec stop step Hs _ _ _ H) as [k [E _]]. eauto.
+Qed.
